@@ -10,7 +10,10 @@ Record obs_step := mkStep {
   os_post : machine; os_removed : bool; os_err : option err_kind;
   os_effects : list effect }.
 
-Record fsm_case := mkScenario { sc_table : table; sc_steps : list obs_step }.
+Record fsm_case := mkScenario {
+  sc_table : table;
+  sc_decode : list (string * (string * Z * Z));   (* the invoices known to the (fake) Lightning node *)
+  sc_steps : list obs_step }.
 
 Definition world_consumed (w : world) : bool :=
   negb (w_overrun w) &&
@@ -20,17 +23,17 @@ Definition world_consumed (w : world) : bool :=
   match q_spend w, q_script w, q_validate w, q_addsender w with [], [], [], [] => true | _, _, _, _ => false end &&
   match q_addsusp w, q_preimage w, q_blind w with [], [], [] => true | _, _, _ => false end.
 
-Definition step_check (t : table) (s : obs_step) : bool :=
-  let '(o, w', effs) := run_step tl_consts_gen t terminal_states (os_pre s) (os_input s) (os_world s) in
+Definition step_check (t : table) (dec : list (string * (string * Z * Z))) (s : obs_step) : bool :=
+  let '(o, w', effs) := run_step tl_consts_gen (fun p => assoc_str p dec) t terminal_states (os_pre s) (os_input s) (os_world s) in
   machine_eqb (o_machine o) (os_post s)
   && Bool.eqb (o_removed o) (os_removed s)
   && match os_err s with Some k => err_eqb (r_err (o_result o)) k | None => true end
   && list_eqb effect_eqb effs (os_effects s)
   && world_consumed w'.
 
-Definition fsm_check (c : fsm_case) : bool := forallb (step_check (sc_table c)) (sc_steps c).
+Definition fsm_check (c : fsm_case) : bool := forallb (step_check (sc_table c) (sc_decode c)) (sc_steps c).
 
 (* index of the first step that differs, for diagnosis *)
-Definition fsm_first_bad (c : fsm_case) : list nat := bad_indexes (step_check (sc_table c)) (sc_steps c).
+Definition fsm_first_bad (c : fsm_case) : list nat := bad_indexes (step_check (sc_table c) (sc_decode c)) (sc_steps c).
 
 Definition fsm_monitor (c : fsm_case) : bool := true.
